@@ -1567,6 +1567,10 @@ impl<'forest, I: Interner> SolveState<'forest, I> {
                     .value
                     .constraints
                     .is_empty(self.context.program().interner())
+                // An answer that still has delayed subgoals is only
+                // conditionally true; if they fail to be proven, the
+                // answers of the other strands are still needed.
+                && answer.subst.value.delayed_subgoals.is_empty()
         };
 
         if let Some(answer_index) = self.forest.tables[table].push_answer(answer) {
